@@ -28,10 +28,12 @@ class EnumRecursiveEncoder(QuasiLazyEncoder):
             return []
 
         n = self.n_divide
-        n_var = int(np.ceil(np.log(n_mat)/np.log(n)))
 
         # Get design vector values that lead to inactive variables (due to nr cutoff)
+        # The number of variables is the number of base-n digits of the last index (a logarithm computed in floating point
+        # is one too high for some exact powers, e.g. 27 matrices in base 3)
         dv_last = np.array(self.base_repr_int(n_mat-1, n))
+        n_var = len(dv_last)
         i_inactive = np.where(dv_last == 0)[0]
         if len(i_inactive) > 0:
             left_side_values = dv_last[:i_inactive[-1]+1].copy()
